@@ -141,6 +141,37 @@ func runC16(c *Collector, r *Rng, thorough bool) {
 			}
 		}
 		signVia("sign/stub-fails/"+ci.name, big.NewInt(1), big.NewInt(1), true)
+		// algorithm / curve combinations the library allows: the width follows the key's curve on both paths
+		for _, other := range curves {
+			if other.alg == ci.alg {
+				continue
+			}
+			for _, rs := range [][2]*big.Int{{big.NewInt(1), big.NewInt(1)}, {new(big.Int).Sub(ci.curve.Params().N, big.NewInt(1)), big.NewInt(255)}} {
+				st := &stubSigner{pub: &key.PublicKey, out: derRS(rs[0], rs[1])}
+				sgx, err := cose.NewSigner(other.alg, st)
+				if err != nil {
+					continue
+				}
+				sig, serr := sgx.Sign(r, msg)
+				obs := ""
+				if serr != nil {
+					obs = oErr(serr)
+				} else {
+					obs = oOk(oB(sig))
+				}
+				c.Add("sign/stub-cross-alg/"+ci.name+"/"+other.alg.String(), fmt.Sprintf("OpEcdsaSign %d %s", ci.n, cOptPairZ(rs[0], rs[1], true)), obs, true)
+				want := append(rs[0].FillBytes(make([]byte, ci.n)), rs[1].FillBytes(make([]byte, ci.n))...)
+				if serr != nil || string(sig) != string(want) {
+					c.Fail("C16/sign-format-cross-alg", fmt.Sprintf("key on %s used with %v through a crypto.Signer: got %x (%v), want %d-byte r||s", ci.name, other.alg, sig, serr, 2*ci.n), map[string]any{"curve": ci.name, "alg": other.alg.String()})
+				}
+			}
+			// native path with the same combination must give the same width
+			if nsg, err := cose.NewSigner(other.alg, key); err == nil {
+				if sig, err := nsg.Sign(r, msg); err == nil && len(sig) != 2*ci.n {
+					c.Fail("C16/native-format-cross-alg", fmt.Sprintf("native %s key with %v: %d bytes", ci.name, other.alg, len(sig)), map[string]any{"curve": ci.name})
+				}
+			}
+		}
 
 		// native path: real signatures; compare with the stub path on the same (r,s)
 		native, err := cose.NewSigner(ci.alg, key)
@@ -231,6 +262,14 @@ func runC16(c *Collector, r *Rng, thorough bool) {
 			}
 			if sig[ci.n] == 0 {
 				offer("verify/stripped-s/"+ci.name, append(append([]byte{}, sig[:ci.n]...), sig[ci.n+1:]...), true)
+			}
+		}
+		if len(validSigs) > 0 {
+			// one extra zero byte at every position of a valid signature (2n+1 bytes) must be refused
+			vs := validSigs[0]
+			for pos := 0; pos <= len(vs); pos++ {
+				b := append(append(append([]byte{}, vs[:pos]...), 0), vs[pos:]...)
+				offer("verify/zero-inserted/"+ci.name, b, true)
 			}
 		}
 		if len(validSigs) > 0 {
